@@ -229,6 +229,14 @@ func (f Frame) Payload() []byte {
 }
 
 func (f *Frame) MaskPayload() {
+	if !f.IsMasked() {
+		// The payload was placed right after the length (NewFrame without SetIsMasked): move it to make room for
+		// the masking key, otherwise its first 4 bytes would be taken for the key and the frame would be 4 bytes short.
+		n := f.PayloadLength()
+		offset := f.payloadOffset()
+		*f = util.ExtendSlice(*f, offset+frameMaskLength+n)
+		copy((*f)[offset+frameMaskLength:], (*f)[offset:offset+n])
+	}
 	f.SetIsMasked()
 
 	var (
